@@ -138,15 +138,19 @@ func (h Handler) handleError(ctx context.Context, token string) http.HandlerFunc
 		if err := cbor.NewDecoder(r.Body).Decode(&errMsg); err != nil {
 			slog.Warn("decoding error message request body", "error", err)
 		} else {
+			var resp protocol.Responder
 			switch protocol.Of(errMsg.PrevMsgType) {
 			case protocol.DIProtocol:
-				h.DIResponder.HandleError(ctx, errMsg)
+				resp = h.DIResponder
 			case protocol.TO0Protocol:
-				h.TO0Responder.HandleError(ctx, errMsg)
+				resp = h.TO0Responder
 			case protocol.TO1Protocol:
-				h.TO1Responder.HandleError(ctx, errMsg)
+				resp = h.TO1Responder
 			case protocol.TO2Protocol:
-				h.TO2Responder.HandleError(ctx, errMsg)
+				resp = h.TO2Responder
+			}
+			if resp != nil {
+				resp.HandleError(ctx, errMsg)
 			}
 		}
 
